@@ -218,9 +218,13 @@ def gen_session(seed):
                 # the program re-bound built-in names - one of the interpreter's, one of the core library's - before the reset;
                 # right after it both must be the originals again
                 i_, j_ = rng.below(8), 8 + rng.below(len(SHADOWABLE) - 8)
-                sess.append(["snip", [["shadow", i_, rng.range(100, 199)], ["shadow", j_, rng.range(100, 199)], ["useshadow", j_, g.id()]]])
+                # ... so must the iterator classes the core library's own methods look up by name (rebound as the LAST thing before
+                # the reset: using `.map()` while they are rebound is not judged), and the value that ends a hand-driven iteration
+                # must be as new as on a new interpreter (no field an earlier program stored on it)
+                sess.append(["snip", [["shadow", i_, rng.range(100, 199)], ["shadow", j_, rng.range(100, 199)], ["useshadow", j_, g.id()],
+                                      ["stopfield", g.id()], ["shadowiter"]]])
                 sess.append(["reset"])
-                sess.append(["snip", [["useshadow", j_, g.id()], ["useshadow", i_, g.id()]]])
+                sess.append(["snip", [["useshadow", j_, g.id()], ["useshadow", i_, g.id()], ["corelib", g.id()], ["stopfield", g.id()]]])
             else:
                 sess.append(["reset"])
         elif (p_bad + p_reset + p_exec) * 1000 <= x < (p_bad + p_reset + p_exec + p_pre) * 1000:
@@ -412,6 +416,11 @@ def render_snip(stmts, uid, stale=()):
             # ten distinct ranges at once: more than the interpreter's range cache holds
             out.append('var mr%s = 0; for q in [100..101, 100..102, 100..103, 100..104, 100..105, 100..106, 100..107, 100..108, 100..109, 100..110] { mr%s = mr%s + 1; } print(("ev", %d, mr%s));' % (
                 u, u, u, st[1], u))
+        elif k == "shadowiter":
+            out.append("var MapIter = 7; var FilterIter = 8; var StopIter = 9;")
+        elif k == "stopfield":
+            out.append('var sit%s = [1].iter(); sit%s.next(); var sen%s = sit%s.next(); var srd%s = "has the field"; try { srd%s = sen%s.vmark; } catch sx%s { srd%s = type(sx%s); } '
+                       'print(("ev", %d, srd%s)); sen%s.vmark = %d;' % (u, u, u, u, u, u, u, u, u, u, st[1], u, u, st[1]))
         elif k == "corelib":
             # names and classes the core library defines: present on a new interpreter, so present after every snippet and reset
             out.append('print(("ev", %d, [1, 2].iter().map(|x| { return x + 1; }).collect(), [1, 2, 3].iter().filter(|x| { return x != 2; }).collect(), '
@@ -804,6 +813,13 @@ def model(ir, faults):
                     else:
                         probes.inc("range_comparison_after_cache_turnover_not_asserted")
                         ev.append([num(stt[2]), WILD, WILD])
+                elif k == "shadowiter":
+                    probes.inc("iterator_class_names_rebound_right_before_a_reset")
+                elif k == "stopfield":
+                    # the first end-of-iteration value an interpreter hands out (since it was created or reset) has no field of the
+                    # program's; whether later ones are the same object is not judged
+                    ev.append([num(stt[1]), WILD if st.get("stopmark") else cls("AttributeError")])
+                    st["stopmark"] = True
                 elif k == "corelib":
                     probes.inc("core_library_used")
                     ev.append([num(stt[1]), {"v": [num(2), num(3)]}, {"v": [num(1), num(3)]}, cls("ErrorClass"), num(5),
